@@ -47,7 +47,7 @@ static volatile unsigned long long g_inflight = 0;
 
 static void on_terminate() {
   char buf[128];
-  int n = std::snprintf(buf, sizeof buf, "T %llu std::terminate called\n", g_inflight);
+  int n = std::snprintf(buf, sizeof buf, "T %llu %s std::terminate called\n", g_inflight, op_name(g_last_op_kind));
   if (write(1, buf, static_cast<size_t>(n)) < 0) {}
   _exit(78);
 }
